@@ -19,19 +19,20 @@ from props import c01
 
 ID = "C02"
 MANIFEST = dict(
-    technique="Coq proof (make_mut cost; set_index in place through unshared paths at any depth; flat: unaliased stays unique, copy once, "
+    technique="Coq proof (make_mut cost; set_index and pop/remove/consume in place through unshared paths at any depth; flat: unaliased stays unique, copy once, "
               "drop_lhs restores uniqueness) on the Rc heap machine + Rc-graph isomorphism model/implementation + counting-allocator "
               "scaling measurement",
     text="Machine-checked theorems (Coq 8.16, no axioms) about the Gallina Rc heap machine Rc/Heap.v+Cow.v (explicit strong counts, "
          "make_mut with a `copied` cost counter, locations never reused): make_mut is the identity at count 1 and one payload copy "
          "otherwise; set_index through a path of count-1 cells copies nothing, creates no location and keeps the handle (any depth, "
-         "all payload kinds); on flat lists: a sequence of index-assign/append=/+=/pop/remove on an unaliased list copies 0 elements "
+         "all payload kinds), and so do pop / remove by index or key / consume through modify_existing_index when the addressed collection "
+         "is unshared too (any depth; remove by slice and default insertion excluded); on flat lists: a sequence of index-assign/append=/+=/pop/remove on an unaliased list copies 0 elements "
          "and keeps it unaliased (the O(n+k) clause), a shared list is copied exactly once and is unaliased afterwards, drop_lhs makes "
          "the operator's argument unique. The machine is tied to /repo on every run by comparing its heap with the implementation's "
          "real Rc graph (addresses, strong counts) after every statement of generated histories; the O(n+k) clause is measured "
          "directly with a counting global allocator on 85 workloads (mutations guarded by a test of the collection itself - if / and / or / for-guard, defect condition-value-kept-alive fixed in /repo e624b10 -, dictionary-merging op-assigns with growing values, loops whose condition is the mutated collection, every payload kind under op-assign at top level and through list slot / dict key / struct field, nested pop/remove/consume, op-assign with a shared right operand) at 6 size points, unaliased and once-aliased.",
     note="The unaliased/copy-once/drop_lhs theorems are proved for the FLAT fragment only (list of scalars, paths of depth <= 1); nested "
-         "rows, dicts, struct fields and pop/remove/builtins at depth are covered by the graph comparison and the allocation "
+         "rows, dicts, struct fields and the operators' own make_mut at depth are covered by the graph comparison and the allocation "
          "measurement, not by theorems (notes/C02.md). Trusted: Coq kernel; hand-written machine; extraction + OCaml runner; Rust "
          "harness c02.rs (graph walk borrows only; counting allocator); Python comparator. Real allocation volume and Vec growth are "
          "measured, not proved.",
